@@ -116,32 +116,70 @@ Proof.
     + lia.
 Qed.
 
-(* item 2 *)
-Lemma read_name_safe : forall d off, safe (read_name d off).
+(* the loop itself (read_name_raw), before the name_fits filter *)
+Lemma read_name_raw_safe : forall d off, safe (read_name_raw d off).
 Proof.
-  intros d off. unfold read_name.
+  intros d off. unfold read_name_raw.
   destruct (Nat.lt_ge_cases (N.to_nat off) (S (length d))) as [Hlt|Hge].
   - apply read_name_from_safe. exact Hlt.
   - cbn [read_name_from]. rewrite skipn_all2 by lia. cbn [length rn_labels]. apply safe_err.
 Qed.
 
-(* item 3 *)
-Lemma read_name_offset : forall d off nm o,
-  read_name d off = Ok (nm, o) -> off < o /\ o <= len d.
+Lemma read_name_raw_offset : forall d off nm o,
+  read_name_raw d off = Ok (nm, o) -> off < o /\ o <= len d.
 Proof.
-  intros d off nm o H. unfold read_name in H. apply read_name_from_ok in H.
+  intros d off nm o H. unfold read_name_raw in H. apply read_name_from_ok in H.
   destruct H as [H _]. exact H.
 Qed.
 
 (* The explicit bound on decoded names, a polynomial in the datagram length alone. *)
 Definition name_bound (d : bytes) : nat := 2 * length d * S (length d).
 
+Lemma read_name_raw_length : forall d off nm o,
+  read_name_raw d off = Ok (nm, o) -> (length nm <= 2 * length d * S (length d))%nat.
+Proof.
+  intros d off nm o H. unfold read_name_raw in H. apply read_name_from_ok in H.
+  destruct H as [_ H]. cbn [length] in H. nia.
+Qed.
+
+(* read_name = read_name_raw filtered by name_fits *)
+Lemma read_name_ok_inv : forall d off nm o,
+  read_name d off = Ok (nm, o) -> read_name_raw d off = Ok (nm, o) /\ name_fits nm = true.
+Proof.
+  intros d off nm o H. unfold read_name in H.
+  destruct (read_name_raw d off) as [[name o']| | |]; cbn [bind] in H; try discriminate.
+  destruct (name_fits name) eqn:Ef; [|discriminate].
+  injection H as Hnm Ho. subst name o'. split; [reflexivity|exact Ef].
+Qed.
+
+Lemma read_name_raw_of_ok : forall d off nm o,
+  read_name d off = Ok (nm, o) -> read_name_raw d off = Ok (nm, o).
+Proof. intros d off nm o H. apply read_name_ok_inv in H. destruct H as [H _]. exact H. Qed.
+
+Lemma read_name_fits : forall d off nm o,
+  read_name d off = Ok (nm, o) -> name_fits nm = true.
+Proof. intros d off nm o H. apply read_name_ok_inv in H. destruct H as [_ H]. exact H. Qed.
+
+(* item 2 *)
+Lemma read_name_safe : forall d off, safe (read_name d off).
+Proof.
+  intros d off. unfold read_name.
+  apply bind_safe; [apply read_name_raw_safe|].
+  intros [name o] _. cbv beta iota. destruct (name_fits name); [apply safe_ok|apply safe_err].
+Qed.
+
+(* item 3 *)
+Lemma read_name_offset : forall d off nm o,
+  read_name d off = Ok (nm, o) -> off < o /\ o <= len d.
+Proof.
+  intros d off nm o H. eapply read_name_raw_offset. apply read_name_raw_of_ok. exact H.
+Qed.
+
 (* item 4 *)
 Lemma read_name_length : forall d off nm o,
   read_name d off = Ok (nm, o) -> (length nm <= 2 * length d * S (length d))%nat.
 Proof.
-  intros d off nm o H. unfold read_name in H. apply read_name_from_ok in H.
-  destruct H as [_ H]. cbn [length] in H. nia.
+  intros d off nm o H. eapply read_name_raw_length. apply read_name_raw_of_ok. exact H.
 Qed.
 
 (* ---------- primitive readers ---------- *)
